@@ -103,6 +103,7 @@ def write_sources(d, sources):
     out = []
     for s in sources:
         p = d / s["name"]
+        p.parent.mkdir(parents=True, exist_ok=True)
         p.write_text(s["svg"])
         out.append(p)
     return out
